@@ -767,6 +767,9 @@ def p_mp_createClass(p):
                                     obj.qualifiers['embeddedinstance']
                             except KeyError:
                                 continue
+                            # The DMTF spec allows the value to be None
+                            if embedded_inst.value is None:
+                                continue
                             if embedded_inst.value not in dep_classnames and \
                                     embedded_inst.value.lower() != ccname:
                                 dep_classnames.append(embedded_inst.value)
